@@ -84,7 +84,7 @@ func raceRun(run *core.Run, mix string, rounds int, repeats int) {
 	// cold starts: one fresh process per family of entry points whose very first calls are concurrent
 	cold := []string{"build"}
 	if mix == "c13" {
-		cold = []string{"parse", "parse-modular", "render", "render-json", "build", "plain", "merge", "modfile-validators"}
+		cold = []string{"parse", "parse-modular", "parse-json", "render", "render-json", "build", "plain", "merge", "modfile-validators"}
 	}
 	for rep := 0; rep < repeats+1; rep++ {
 		for _, fam := range cold {
